@@ -38,6 +38,76 @@ func runC20(c *Ctx) {
 	c20R5(c)
 	c20R6(c)
 	c20R7(c)
+	c20R8(c)
+}
+
+// c20R8: which inner code survives, and how un-coded sentinels are found, does not depend on the
+// shape of the error tree.
+func c20R8(c *Ctx) {
+	r := c.R.Rule("R8", "K3 outermost inner code wins, sentinels by Is: conduiterr.Wrap/WithCode look up the inner coded error with a single As (never descending further into the chain), and exitcode's environment-sentinel test finds each sentinel with Is (anywhere in the tree), not with a first-match As", 3)
+	asVar := c.W.LookupObj(pCerrors, "As")
+	isVar := c.W.LookupObj(pCerrors, "Is")
+	errorsAs := c.W.ExtObj("errors", "As")
+	errorsIs := c.W.ExtObj("errors", "Is")
+	callsOf := func(fn *ssa.Function, v, ext types.Object) []*ssa.Call {
+		var out []*ssa.Call
+		for _, b := range fn.Blocks {
+			for _, in := range b.Instrs {
+				x, ok := in.(*ssa.Call)
+				if !ok {
+					continue
+				}
+				if u, ok := x.Call.Value.(*ssa.UnOp); ok {
+					if g, ok := u.X.(*ssa.Global); ok && v != nil && g.Object() == v {
+						out = append(out, x)
+					}
+				}
+				if f := x.Call.StaticCallee(); f != nil && ext != nil && f.Object() == ext {
+					out = append(out, x)
+				}
+			}
+		}
+		return out
+	}
+	inLoop := func(in ssa.Instruction) bool {
+		b := in.Block()
+		// b is in a cycle iff b is reachable from one of its successors
+		seen := map[*ssa.BasicBlock]bool{}
+		work := append([]*ssa.BasicBlock{}, b.Succs...)
+		for len(work) > 0 {
+			x := work[0]
+			work = work[1:]
+			if x == b {
+				return true
+			}
+			if seen[x] {
+				continue
+			}
+			seen[x] = true
+			work = append(work, x.Succs...)
+		}
+		return false
+	}
+	for _, name := range []string{"Wrap", "WithCode"} {
+		fn := c.SSA(r, pConduiterr, name)
+		if fn == nil {
+			continue
+		}
+		as := callsOf(fn, asVar, errorsAs)
+		ok := len(as) >= 1
+		for _, a := range as {
+			if inLoop(a) {
+				ok = false
+			}
+		}
+		c.R.Check(ok, r, "conduiterr."+name+": one As lookup of the inner coded error, not a descent", c.Pos(fn.Pos()), "single As outside any loop", "conduiterr."+name+" walks further down the chain after the first coded error it finds (As inside a loop): a later plain Wrap then resurrects a code that WithCode had replaced, so the classification depends on how many wrappers were added", true)
+	}
+	const pExit = "pkg/conduit/exitcode"
+	if fn := c.SSA(r, pExit, "isEnvironmentSentinel"); fn != nil {
+		is := callsOf(fn, isVar, errorsIs)
+		as := callsOf(fn, asVar, errorsAs)
+		c.R.Check(len(is) >= 2 && len(as) == 0, r, "exitcode.isEnvironmentSentinel: sentinels found with Is", c.Pos(fn.Pos()), "Is per sentinel", "isEnvironmentSentinel no longer tests each sentinel with Is (it uses As, which stops at the first matching error of the tree): the exit code of a joined error then depends on the order of its parts", true)
+	}
 }
 
 // c20R7: the wire category survives the round trip when the reason carries none (F23).
